@@ -42,7 +42,7 @@ class Prop(BaseProp):
             "regime)")
     budget = {"quick": 700, "thorough": 72000}
     must_see = ["reconcile_outside_kept_1e-7", "reconcile_outside_dropped_1e-5", "reconcile_different_edges",
-                "reconcile_duplicates", "reconcile_sorted_input", "different_edges_measure_call", "inplace_edit_history", "dirty_call", "reconcile_false_call", "mrts_auto", "constructor_alias_checked",
+                "reconcile_duplicates", "reconcile_sorted_input", "different_edges_measure_call", "inplace_edit_history", "list_mutated_between_calls", "dirty_call", "reconcile_false_call", "mrts_auto", "constructor_alias_checked",
                 "readonly_calls"] + ["ep:" + e[0] for e in common.ENTRY_POINTS] + ["ep:filter_by_spike_sync"]
     arm_files = [("pyspike/spikes.py", ["reconcile_spike_trains", "reconcile_spike_trains_bi"]), ("pyspike/generic.py", None)]
     assumptions = ["times within 4 ulp of the 1e-6 tolerance boundary are not generated (the statement's tolerance is "
@@ -231,6 +231,26 @@ class Prop(BaseProp):
         want = sorted({float(t) for t in h.spikes.tolist() if ts - EPS < t < te + EPS})
         ctx.expect(np.asarray(rr[0].spikes, dtype=float).tolist() == want, "stale-state-after-inplace-edit:reconcile",
                    "reconcile of an edited train returns %s, its current distinct spike times are %s" % (common.short(np.asarray(rr[0].spikes).tolist()), common.short(want)))
+        # ---- history on ONE list object: use it, replace an element in place, use it again at once.
+        # The second result must describe the list's CURRENT content (a result cached per list object would show).
+        if N >= 2:
+            ctx.count("list_mutated_between_calls")
+            L = list(clean)
+            repl = ps.SpikeTrain(np.array(sorted({ts + (te - ts) * f for f in (0.125, 0.375, 0.8125)}), dtype=float), [ts, te])
+            for name in case["entry"][2:5]:
+                _, form, kws, _iv = [e for e in common.ENTRY_POINTS if e[0] == name][0]
+                if form == "bi":
+                    continue
+                fn = getattr(ps, name)
+                kw = {q: kwc[q] for q in kws}
+                L[:] = list(clean)
+                ctx.call(fn, L, _repeat=False, **kw)
+                L[N - 1] = repl
+                r_same = ctx.call(fn, L, _repeat=False, **kw)
+                r_new = ctx.call(fn, list(L), _repeat=False, **kw)
+                d = common.result_equal(ps, r_same, r_new)
+                ctx.expect(d is None, "stale-state-after-list-mutation:" + name,
+                           "%s on a list whose element was replaced in place differs from the same trains in a fresh list: %s" % (name, d))
         # filter
         ctx.count("ep:filter_by_spike_sync")
         kw = {"MRTS": kwc["MRTS"], "max_tau": kwc["max_tau"]}
